@@ -19,7 +19,8 @@ from vlib import refsim as RS, strategies as S
 PROPERTY = "C18"
 RULE = ("Grouping: Hypothesis-generated qubit operators (1-6 qubits, 1-25 distinct Pauli words incl. identity, repeated supports with different "
         "letters, real/complex coefficients |c|>=1e-6), seed None / int, n_repeat 1-3, random complex state for the expectation value; "
-        "non-trivial = >=2 groups. Histograms: counts (ints 0..10^6, zeros allowed, total>0) or probabilities (normalised floats), bitstring "
+        "non-trivial = >=2 groups; the groups and histograms handed to exp_value_from_measurement_bases / map_measurements_qwc are "
+        "snapshotted and compared afterwards, the evaluation is repeated three times with the same objects and the partition is re-checked at the end. Histograms: counts (ints 0..10^6, zeros allowed, total>0) or probabilities (normalised floats), bitstring "
         "length 1-100 (<=62 where resampling converts to int64), 1-40 outcomes, msq_first on/off, index sets (empty, all, arbitrary), expected-outcome "
         "dictionaries (matching / non-matching), split index lists, shot numbers 1..10^6; non-trivial = >=3 outcomes and a non-empty index set "
         "(aggregation: >=2 histograms sharing a key; resampling: >=2 outcomes). histogram_history: 2-4 Histograms built from the same outcomes "
@@ -102,6 +103,8 @@ def grouping_cases(draw, max_n, max_terms):
         extra = [[q, draw(st.sampled_from("XYZ"))] for q in sup]
         if extra not in terms:
             terms.append(extra)
+    if [] not in terms and draw(st.integers(0, 2)) > 0:
+        terms.append([])        # a non-zero constant (identity) term is the common case for Hamiltonians
     cplx = draw(st.booleans())
     c = st.one_of(st.floats(1e-6, 3, allow_nan=False), st.floats(-3, -1e-6, allow_nan=False), st.sampled_from([1.0, -1.0, 0.5]))
     op = [[t, draw(c), draw(c) if cplx and draw(st.booleans()) else 0.0] for t in terms]
@@ -146,29 +149,52 @@ def grouping(ctx):
                   "seed=None" if case["seed"] is None else "seed=int"}
         if dict(op.terms) != snap:
             raise Fail("group_qwc mutated the input operator", sig="group_qwc:mutated-input")
-        # --- partition: every (term, coefficient) exactly once
-        seen = {}
-        for basis, sub in groups.items():
-            bq = [q for q, _ in basis]
-            if bq != sorted(set(bq)) or any(p not in "XYZ" for _, p in basis):
-                raise Fail(f"basis {basis} is not a sorted tensor-product basis", sig="group_qwc:basis-form")
-            for t, c in sub.terms.items():
-                if t in seen:
-                    raise Fail(f"term {t} appears in two groups ({seen[t]} and {basis})", sig="group_qwc:term-twice")
-                seen[t] = basis
-                if t not in exp:
-                    raise Fail(f"group {basis} contains term {t} that is not in the operator", sig="group_qwc:foreign-term")
-                if abs(complex(c) - exp[t]) > 1e-12:
-                    raise Fail(f"term {t} has coefficient {c} in its group, {exp[t]} in the operator", sig="group_qwc:coefficient")
-                if not all(f in basis for f in t):
-                    raise Fail(f"term {t} is not diagonal in its group's basis {basis}", sig="group_qwc:not-diagonal")
-        missing = [t for t in exp if t not in seen]
-        if missing:
-            raise Fail(f"terms {missing[:4]} of the operator are in no group", sig="group_qwc:term-missing")
+        def check_partition(when):
+            """every (term, coefficient) of the operator in exactly one group, diagonal in that group's basis"""
+            seen = {}
+            for basis, sub in groups.items():
+                bq = [q for q, _ in basis]
+                if bq != sorted(set(bq)) or any(p not in "XYZ" for _, p in basis):
+                    raise Fail(f"{when}: basis {basis} is not a sorted tensor-product basis", sig="group_qwc:basis-form")
+                for t, c in sub.terms.items():
+                    if t in seen:
+                        raise Fail(f"{when}: term {t} appears in two groups ({seen[t]} and {basis})", sig="group_qwc:term-twice")
+                    seen[t] = basis
+                    if t not in exp:
+                        raise Fail(f"{when}: group {basis} contains term {t} that is not in the operator", sig="group_qwc:foreign-term")
+                    if abs(complex(c) - exp[t]) > 1e-12:
+                        raise Fail(f"{when}: term {t} has coefficient {c} in its group, {exp[t]} in the operator", sig="group_qwc:coefficient")
+                    if not all(f in basis for f in t):
+                        raise Fail(f"{when}: term {t} is not diagonal in its group's basis {basis}", sig="group_qwc:not-diagonal")
+            missing = [t for t in exp if t not in seen]
+            if missing:
+                raise Fail(f"{when}: terms {missing[:4]} of the operator are in no group (the groups are not a partition of the operator)",
+                           sig="group_qwc:term-missing" if when == "after group_qwc" else "grouping:partition-lost-after-use")
+
+        check_partition("after group_qwc")
+        group_objs = dict(groups)                               # the very same objects are reused below
+
+        def snap_groups():
+            return [(b, id(o), list(o.terms.items())) for b, o in groups.items()]
+
+        def args_unchanged(fn, g0, h0=None):
+            g1 = snap_groups()
+            if [x[0] for x in g1] != [x[0] for x in g0] or any(groups[b] is not group_objs.get(b) for b in groups):
+                raise Fail(f"{fn} changed the keys/objects of the groups dictionary it was given", sig="grouping:argument-mutated:groups-keys")
+            for (b, _, t0), (_, _, t1) in zip(g0, g1):
+                if t0 != t1:
+                    lost = [t for t, _ in t0 if t not in dict(t1)]
+                    raise Fail(f"{fn} changed the operator of group {b} it was given: terms {t0} became {t1} (lost {lost})",
+                               sig="grouping:argument-mutated:groups")
+            if h0 is not None and hists != h0:
+                raise Fail(f"{fn} changed the histograms it was given", sig="grouping:argument-mutated:histograms")
+
         if () in exp:
             labels.add("identity-term:" + ("first" if case["op"][0][0] == [] else "later"))
         # --- map_measurements_qwc
+        g0 = snap_groups()
         mm = map_measurements_qwc(groups)
+        args_unchanged("map_measurements_qwc", g0)
         bases = list(groups)
         for t in exp:
             want = [b for b in bases if compatible(t, b)] if t else None
@@ -195,11 +221,21 @@ def grouping(ctx):
                 phi = RS.apply_matrix(phi, ROT[p], [q], [], n)
             pr = np.abs(phi) ** 2
             hists[basis] = {RS.bitstr(i, n): float(pr[i]) for i in range(2 ** n) if pr[i] > 0}
-        got = exp_value_from_measurement_bases(groups, hists)
         want = sum(c * RS.qop_expectation({t: 1.0}, psi, n) for t, c in exp.items())
         scale = max(1.0, sum(abs(c) for c in exp.values()))
-        if abs(complex(got) - complex(want)) > 1e-9 * scale:
-            raise Fail(f"exp_value_from_measurement_bases = {got}, term-by-term value {want}", sig="exp_value_from_measurement_bases:value")
+        h0 = {b: dict(f) for b, f in hists.items()}
+        g0 = snap_groups()
+        # the same grouping and histograms are evaluated repeatedly (as a caller re-using one grouping for many states would)
+        for attempt in ("first", "second", "after map_measurements_qwc"):
+            if attempt == "after map_measurements_qwc":
+                map_measurements_qwc(groups)
+            got = exp_value_from_measurement_bases(groups, hists)
+            if abs(complex(got) - complex(want)) > 1e-9 * scale:
+                raise Fail(f"exp_value_from_measurement_bases ({attempt} evaluation with the same arguments) = {got}, term-by-term value {want}"
+                           + (f" (constant term of the operator: {exp.get((), 0)})" if attempt != "first" else ""),
+                           sig="exp_value_from_measurement_bases:value" if attempt == "first" else "exp_value_from_measurement_bases:repeated-evaluation")
+            args_unchanged(f"exp_value_from_measurement_bases ({attempt} evaluation)", g0, h0)
+        check_partition("after the evaluations")
         return len(groups) >= 2, labels
 
     ctx.search("grouping", grouping_cases(mn, mt), body)
